@@ -274,6 +274,29 @@ CHECKS = {
             "DESIGN.md section 4, C20"),
 }
 
+# additions of the eleventh wave of seeded defects (appended to the coverage text of each check)
+EXTRA = {
+    'C01': "The candidates are also delivered to a real node as answers to a request (bulk-download path) with the validation interval set to the block's height.",
+    'C02': "Value conservation (unspent total after <= before + subsidy) is evaluated for every accepted block, including one whose two non-adjacent transactions spend the same output while the reward claims both fees.",
+    'C03': "40-block two-branch histories; a look-up mode in which a wallet asks balances for side-branch blocks between arrivals.",
+    'C04': "A delivery mode in which every block is followed by a refused one (the node falls back to its last validated state).",
+    'C05': "The real miner handler at clock offsets -30 / -29 relative to the head: a found block that breaks a header rule must not be adopted.",
+    'C06': "The mutants are also presented on the shorter branch of a two-branch state.",
+    'C07': "Ids of objects derived from an already-hashed object (signed copy, rebuilt block).",
+    'C09': "A coarse-grained thread exploration (line-level points in mining/disk/store code, call-level in the managers) with preemption bound 2 (3).",
+    'C10': "A history containing a block of exactly the maximum size (bound 0 quick / 1 thorough).",
+    'C11': "Complete frames followed by the remote's close inside one readable event, on the real LocalPeer read path.",
+    'C12': "A sixth thread plan: a work request racing a block that confirms a pooled transaction; the coarse-grained exploration of C09.",
+    'C13': "One output spent by two transactions that differ only in a second valid signature; the coarse-grained thread exploration of C09.",
+    'C14': "Wallets of 2,100 outputs asked for amounts that need exactly 1,978 / 1,979 inputs with and without change (the size limit); a refusal is accepted only when no transaction that fits in a block reaches the amount. One recorded defect (feasible spend refused because of the selection order) is reported as KNOWN-FINDING.",
+    'C15': "The balance of a wallet object that has built a not yet confirmed spend.",
+    'C16': "The validator's reward bound on ledger states in which conflicting transactions with different fees were seen by the same process.",
+    'C17': "List lengths around every power of two up to 4,100.",
+    'C18': "Hand-assembled network-format blocks at all 327 checkpoint heights and at every VLQ width boundary keep their network id and their bytes.",
+    'C19': "The peer book read from peers.json by the real DiskInterface.load_peers.",
+    'C20': "A client that resets its connection before the node accepts it.",
+}
+
 NOT_YET = "check not built yet in this revision of /verif (work in progress; see DESIGN.md section 4)"
 
 ALL = ['C%02d' % i for i in range(1, 21)]
@@ -285,6 +308,8 @@ def main():
         if pid not in CHECKS:
             continue
         cat, tech, text, note, ref = CHECKS[pid]
+        if pid in EXTRA:
+            text = text.rstrip() + ' ' + EXTRA[pid]
         checks.append({
             'property_id': pid,
             'quick_cmd': './check %s --tier quick' % pid,
